@@ -575,13 +575,42 @@ void auth_release_scram_ctx(xmpp_conn_t *conn)
     }
 }
 
+/* RFC 5802, 5.1: the characters ',' and '=' in a username are sent as
+ * '=2C' and '=3D' respectively */
+static char *_scram_escape_username(xmpp_ctx_t *ctx, const char *node)
+{
+    size_t len = 0;
+    const char *c;
+    char *result, *p;
+
+    for (c = node; *c; c++)
+        len += (*c == ',' || *c == '=') ? 3 : 1;
+    result = strophe_alloc(ctx, len + 1);
+    if (!result)
+        return NULL;
+    p = result;
+    for (c = node; *c; c++) {
+        if (*c == ',') {
+            memcpy(p, "=2C", 3);
+            p += 3;
+        } else if (*c == '=') {
+            memcpy(p, "=3D", 3);
+            p += 3;
+        } else {
+            *p++ = *c;
+        }
+    }
+    *p = '\0';
+    return result;
+}
+
 static int _make_scram_init_msg(struct scram_user_data *scram)
 {
     xmpp_conn_t *conn = scram->conn;
     xmpp_ctx_t *ctx = conn->ctx;
     const void *binding_data;
     const char *binding_type;
-    char *node, *message;
+    char *jid_node, *node, *message;
     size_t message_len, binding_type_len = 0, binding_data_len;
     int l, is_secured = xmpp_conn_is_secured(conn);
     /* This buffer must be able to hold:
@@ -606,7 +635,12 @@ static int _make_scram_init_msg(struct scram_user_data *scram)
         binding_type_len += 1;
     }
 
-    node = xmpp_jid_node(ctx, conn->jid);
+    jid_node = xmpp_jid_node(ctx, conn->jid);
+    if (!jid_node) {
+        return -1;
+    }
+    node = _scram_escape_username(ctx, jid_node);
+    strophe_free(ctx, jid_node);
     if (!node) {
         return -1;
     }
